@@ -228,6 +228,7 @@ def execute(plan, tier, seed):
         counts = {"confirmed": 0, "refuted": 0, "inconclusive": 0, "error": 0}
         twins_ok = twins_bad = twins_inc = 0
         main_total = main_conf = main_inc = 0
+        to_replay = []
         for ob in plan.obs:
             r = results[ob.oid]
             v = r["verdict"]
@@ -256,14 +257,16 @@ def execute(plan, tier, seed):
                 if not r.get("cex_args_repr"):
                     harness_errors.append("obligation %s refuted but arguments not recoverable: %s" % (ob.oid, r.get("cex_message")))
                     continue
-                path = write_replay(plan, ob, r["cex_args_repr"])
-                rc, out = run_replay(path)
-                validated += 1
-                if rc == 1:
-                    violations.append((ob, r, path))
-                else:
-                    harness_errors.append("counterexample of %s did not reproduce on the real code (rc=%s): %s %s" % (ob.oid, rc, r["cex_args_repr"], out[-300:]))
-                    os.remove(path)
+                to_replay.append((ob, r, write_replay(plan, ob, r["cex_args_repr"])))
+        with ThreadPoolExecutor(max_workers=NPROC) as ex:
+            outs = list(ex.map(lambda t: run_replay(t[2]), to_replay))
+        for (ob, r, path), (rc, out) in zip(to_replay, outs):
+            validated += 1
+            if rc == 1:
+                violations.append((ob, r, path))
+            else:
+                harness_errors.append("counterexample of %s did not reproduce on the real code (rc=%s): %s %s" % (ob.oid, rc, r["cex_args_repr"], out[-300:]))
+                os.remove(path)
         if os.environ.get("VERIF_DEBUG"):
             json.dump(results, open(os.environ["VERIF_DEBUG"], "w"), indent=1)
         ctx = {"plan": plan, "tier": tier, "seed": seed, "work": work, "results": results}
